@@ -346,8 +346,8 @@ def run(ctx):
                 b, a = r['before'], r['after']
                 if a['dup'] == 0:
                     hist['ack-new'] += 1
-                    if b['dup'] in (1, 2) and a['cwnd'] > b['cwnd'] + 513:
-                        hist['observed-new-ack-after-only-1-or-2-dupacks-window-jumped-up'] += 1
+                    if b['dup'] in (1, 2):
+                        hist['ack-new-after-1-or-2-duplicates'] += 1
                     if len(b['timers']) - len(a['timers']) > 1:
                         hist['ack-new-stops-several-timers'] += 1
                 elif a['dup'] == 3:
